@@ -21,6 +21,7 @@ open MV MV.Gen MV.GM VM
 def POp.destroyed : POp → List Elem → List Elem
   | .truncate n, es => es.drop n
   | .clear, es => es
+  | .retain f, es => rejFrom f 0 es
   | _, _ => []
 
 /-- elements the caller gives to the vector -/
@@ -43,7 +44,17 @@ theorem afterDrops_own (X : Ctx) (s : St) (es : List Elem) :
     elements the specification says it destroys -/
 theorem POp.own (X : Ctx) (hq : ∀ k, X.o.panicAt k = false) (op : POp) (s : St) (es : List Elem) (h : Abs X s.v es)
     (hr : op.inRange es) (o : Option Elem) (s' : St) (hrun : op.run X s = (.ok o, s')) :
-    ownEvents s'.sys.tr = ownEvents s.sys.tr ++ dropEvents X (op.destroyed es) := by
+    ∃ d, d.Perm (op.destroyed es) ∧ ownEvents s'.sys.tr = ownEvents s.sys.tr ++ dropEvents X d := by
+  refine (fun (key : (∃ d, d.Perm (op.destroyed es) ∧ ownEvents s'.sys.tr = ownEvents s.sys.tr ++ dropEvents X d)) => key) ?_
+  by_cases hret : ∃ f, op = .retain f
+  · obtain ⟨f, hf⟩ := hret
+    subst hf
+    obtain ⟨s1, rej, hrun1, _, hperm, hown, _⟩ := retain_spec X hq f s es h
+    simp only [POp.run, VM.bind_run, hrun1, VM.pure_run] at hrun
+    simp at hrun
+    rw [← hrun.2]
+    exact ⟨rej, hperm, hown⟩
+  refine ⟨op.destroyed es, List.Perm.refl _, ?_⟩
   have hnil : dropEvents X [] = [] := by simp [dropEvents]
   have quiet : ∀ (x : VM Unit), Quiet x → (do x; pure (none : Option Elem) : VM (Option Elem)) s = (.ok o, s') →
       ownEvents s'.sys.tr = ownEvents s.sys.tr := by
@@ -85,6 +96,7 @@ theorem POp.own (X : Ctx) (hq : ∀ k, X.o.panicAt k = false) (op : POp) (s : St
     simp only [POp.run, VM.bind_run, hrun', VM.pure_run] at hrun
     simp at hrun; rw [← hrun.2]
     exact afterDrops_own X s _
+  | retain f => exact (hret ⟨f, rfl⟩).elim
 
 /-! ### pure accounting on the specification side -/
 
@@ -154,6 +166,9 @@ theorem POp.conserves (op : POp) (es : List Elem) (hr : op.inRange es) :
       · have hi' : i < init.length := by simp at hi; omega
         rw [List.set_append_left _ _ hi', List.take_left' (by simp), List.getElem_append_left hi']
         exact set_perm init i l hi'
+  | retain f =>
+    simp only [POp.spec, POp.destroyed, POp.given, Option.toList, List.append_nil]
+    exact kept_rej_perm f 0 es
 
 def destroyedAll : List POp → List Elem → List Elem
   | [], _ => []
@@ -187,24 +202,27 @@ theorem history_conserves (ops : List POp) (es : List Elem) (hr : allInRange ops
 theorem dropEvents_append (X : Ctx) (a b : List Elem) : dropEvents X (a ++ b) = dropEvents X a ++ dropEvents X b := by
   unfold dropEvents; split <;> simp
 
-/-- a completed history adds exactly the destructor runs the specification prescribes, and ends
-    exposing the specified contents -/
+/-- a completed history adds exactly the destructor runs the specification prescribes (`retain`
+    may destroy its rejected elements in a different order than they stood), and ends exposing the
+    specified contents -/
 theorem history_own (X : Ctx) (hq : ∀ k, X.o.panicAt k = false) (ops : List POp) (s : St) (es : List Elem)
     (outs outs' : List (Option Elem)) (s' : St) (h : Abs X s.v es) (hr : allInRange ops es)
     (hrun : runOps X ops s outs = (.ok outs', s')) :
-    ownEvents s'.sys.tr = ownEvents s.sys.tr ++ dropEvents X (destroyedAll ops es) ∧ Abs X s'.v (finalOf ops es) := by
+    (∃ d, d.Perm (destroyedAll ops es) ∧ ownEvents s'.sys.tr = ownEvents s.sys.tr ++ dropEvents X d) ∧
+      Abs X s'.v (finalOf ops es) := by
   induction ops generalizing s es outs with
   | nil =>
     simp only [runOps, Prod.mk.injEq] at hrun
     rw [← hrun.2]
-    simp [destroyedAll, dropEvents, finalOf, h]
+    exact ⟨⟨[], by simp [destroyedAll], by simp [dropEvents]⟩, by simpa [finalOf] using h⟩
   | cons op rest ih =>
     rcases POp.refines X hq op s es h hr.1 with ⟨s1, hrun1, habs⟩ | ⟨p, s1, hrun1, _, _⟩
     · simp only [runOps, hrun1] at hrun
-      have h1 := POp.own X hq op s es h hr.1 _ s1 hrun1
-      obtain ⟨h2, h3⟩ := ih s1 _ _ habs hr.2 hrun
-      refine ⟨?_, h3⟩
-      rw [h2, h1, destroyedAll, dropEvents_append, List.append_assoc]
+      obtain ⟨d1, hp1, h1⟩ := POp.own X hq op s es h hr.1 _ s1 hrun1
+      obtain ⟨⟨d2, hp2, h2⟩, h3⟩ := ih s1 _ _ habs hr.2 hrun
+      refine ⟨⟨d1 ++ d2, ?_, ?_⟩, h3⟩
+      · simp only [destroyedAll]; exact List.Perm.append hp1 hp2
+      · rw [h2, h1, dropEvents_append, List.append_assoc]
     · simp [runOps, hrun1] at hrun
 
 /-- C02 for histories of proved operations: run the history, drop the vector; the destructor
@@ -217,23 +235,24 @@ theorem C02_exactly_once_partial (X : Ctx) (hq : ∀ k, X.o.panicAt k = false) (
     ∃ s'' dropped, Vec.dropVec X s' = (.ok (), s'') ∧ Abs X s''.v [] ∧
       ownEvents s''.sys.tr = ownEvents s.sys.tr ++ dropEvents X dropped ∧
       (dropped ++ returnedAll ops es).Perm (es ++ givenAll ops) := by
-  obtain ⟨hown, habs⟩ := history_own X hq ops s es outs outs' s' h hr hrun
+  obtain ⟨⟨d, hdp, hown⟩, habs⟩ := history_own X hq ops s es outs outs' s' h hr hrun
   have hcons := history_conserves ops es hr
-  have hperm : (destroyedAll ops es ++ finalOf ops es ++ returnedAll ops es).Perm (es ++ givenAll ops) := by
-    rw [List.perm_iff_count] at hcons ⊢
+  have hperm : (d ++ finalOf ops es ++ returnedAll ops es).Perm (es ++ givenAll ops) := by
+    rw [List.perm_iff_count] at hcons hdp ⊢
     intro a
     have := hcons a
+    have := hdp a
     simp only [List.count_append] at *
     omega
   obtain ⟨hdef, halloc⟩ := dropVec_spec X hq s' (finalOf ops es) habs
   cases hd : s'.v.isDefault with
   | true =>
     have hnil := (habs.sentinel hd).2
-    refine ⟨s', destroyedAll ops es, hdef hd, by rw [← hnil]; exact habs, hown, ?_⟩
+    refine ⟨s', d, hdef hd, by rw [← hnil]; exact habs, hown, ?_⟩
     rw [hnil] at hperm; simpa using hperm
   | false =>
     obtain ⟨b, _, hdrop⟩ := halloc hd
-    refine ⟨_, destroyedAll ops es ++ finalOf ops es, hdrop, Abs.sentinel_abs X h.elem_pos, ?_, hperm⟩
+    refine ⟨_, d ++ finalOf ops es, hdrop, Abs.sentinel_abs X h.elem_pos, ?_, hperm⟩
     simp only [ownEvents_append, afterDrops_own, hown, dropEvents_append, List.append_assoc]
     simp [ownEvents, Ev.isOwn]
 
